@@ -98,10 +98,13 @@ func csvOf(sc *Scenario) []byte {
 		n = 1
 	}
 	rows := make([][]string, 0, n+1)
-	rows = append(rows, []string{"id", "a", "b"})
+	// the key column is not the first one and the cell before it varies in length (and the key itself does too):
+	// per-row scratch state shared between workers shows as a wrong key
+	rows = append(rows, []string{"a", "id", "b"})
 	perm := rng.Perm(n)
 	for _, i := range perm {
-		rows = append(rows, []string{fmt.Sprintf("%07d", i), fmt.Sprintf("v%d", i%97), fmt.Sprintf("w%d", rng.Intn(1000))})
+		rows = append(rows, []string{strings.Repeat("x", i%9) + fmt.Sprintf("v%d", i%97), fmt.Sprintf("%07d", i) + strings.Repeat("k", i%4),
+			fmt.Sprintf("w%d", rng.Intn(1000))})
 	}
 	return tbl.CSV(rows, 0)
 }
